@@ -1,3 +1,7 @@
+// Package verifm is the machine-level harness of /verif (overlay-only): it
+// runs one concrete program skeleton on one concrete configuration of one of
+// the twelve variants with SYMBOLIC initial registers and memory, and compares
+// the outcome with an independent sequential reference interpreter.
 package verifm
 
 import (
@@ -14,7 +18,7 @@ import (
 	mvp7_1 "github.com/teivah/majorana/proc/mvp7-1"
 	mvp8_0 "github.com/teivah/majorana/proc/mvp8-0"
 	"github.com/teivah/majorana/risc"
-	"github.com/teivah/majorana/verifvp"
+	vp "github.com/teivah/majorana/verifvp"
 )
 
 type vm interface {
@@ -22,86 +26,141 @@ type vm interface {
 	Context() *risc.Context
 }
 
-func mk(k string, mem, p int) vm {
+// mk builds a machine through its public constructor and arms the loop budget
+// of the instrumented Run (see drive/tick.go).
+func mk(k string, mem, eu, wu, budget int) (vm, func() int) {
 	switch k {
 	case "1":
-		return mvp1.NewCPU(false, mem)
+		mvp1.VerifSetBudget(budget)
+		return mvp1.NewCPU(false, mem), mvp1.VerifTicks
 	case "2":
-		return mvp2.NewCPU(false, mem)
+		mvp2.VerifSetBudget(budget)
+		return mvp2.NewCPU(false, mem), mvp2.VerifTicks
 	case "3":
-		return mvp3.NewCPU(false, mem)
+		mvp3.VerifSetBudget(budget)
+		return mvp3.NewCPU(false, mem), mvp3.VerifTicks
 	case "4":
-		return mvp4.NewCPU(false, mem)
+		mvp4.VerifSetBudget(budget)
+		return mvp4.NewCPU(false, mem), mvp4.VerifTicks
 	case "5":
-		return mvp5.NewCPU(false, mem)
+		mvp5.VerifSetBudget(budget)
+		return mvp5.NewCPU(false, mem), mvp5.VerifTicks
 	case "6.0":
-		return mvp6_0.NewCPU(false, mem, p, p)
+		mvp6_0.VerifSetBudget(budget)
+		return mvp6_0.NewCPU(false, mem, eu, wu), mvp6_0.VerifTicks
 	case "6.1":
-		return mvp6_1.NewCPU(false, mem, p, p)
+		mvp6_1.VerifSetBudget(budget)
+		return mvp6_1.NewCPU(false, mem, eu, wu), mvp6_1.VerifTicks
 	case "6.2":
-		return mvp6_2.NewCPU(false, mem, p, p)
+		mvp6_2.VerifSetBudget(budget)
+		return mvp6_2.NewCPU(false, mem, eu, wu), mvp6_2.VerifTicks
 	case "6.3":
-		return mvp6_3.NewCPU(false, mem, p, p)
+		mvp6_3.VerifSetBudget(budget)
+		return mvp6_3.NewCPU(false, mem, eu, wu), mvp6_3.VerifTicks
 	case "7.0":
-		return mvp7_0.NewCPU(false, mem, p)
+		mvp7_0.VerifSetBudget(budget)
+		return mvp7_0.NewCPU(false, mem, eu), mvp7_0.VerifTicks
 	case "7.1":
-		return mvp7_1.NewCPU(false, mem, p)
+		mvp7_1.VerifSetBudget(budget)
+		return mvp7_1.NewCPU(false, mem, eu), mvp7_1.VerifTicks
 	case "8":
-		return mvp8_0.NewCPU(false, mem, p)
+		mvp8_0.VerifSetBudget(budget)
+		return mvp8_0.NewCPU(false, mem, eu), mvp8_0.VerifTicks
 	}
-	panic(k)
+	panic("verifm: unknown variant " + k)
 }
 
-// A tiny program: data-dependent branch, ALU chain, load and store to
-// different lines. Reference computed by hand below.
-const prog = `
-  lw t3, 8(zero)
-  add t2, t0, t1
-  sub t4, t2, t0
-  blt t0, t1, less
-  li t5, 1
-  j end
-less:
-  li t5, 2
-end:
-  sw t2, 128(zero)
-  addi t6, t3, 1
-  ret
-`
+var regNames = []string{"zero", "ra", "sp", "gp", "tp", "t0", "t1", "t2", "s0", "s1", "a0", "a1", "a2", "a3", "a4", "a5", "a6", "a7",
+	"s2", "s3", "s4", "s5", "s6", "s7", "s8", "s9", "s10", "s11", "t3", "t4", "t5", "t6"}
 
-var Variant = "8"
-var Par = 2
+const memoryAccess = 309 // the slowest latency of common/latency (checked by the C12 harness against the package)
 
-func Machine() {
-	m := mk(Variant, 256, Par)
-	a := verifvp.I32("t0")
-	b := verifvp.I32("t1")
-	m.Context().Registers[risc.T0] = a
-	m.Context().Registers[risc.T1] = b
-	var mem [4]int8
-	for i := 0; i < 4; i++ {
-		mem[i] = verifvp.I8("m" + string(rune('0'+i)))
-		m.Context().Memory[8+i] = mem[i]
+// VerifMachine: job parameters variant, eu, wu (cores for 7.x/8), mem (bytes), prog
+// (assembly text), init ("t0=64,t1=-4": registers with concrete initial values;
+// all others are symbolic), budgetk (cycle budget = budgetk*(executed+2)*309),
+// check ("all" | "noregs:<r>,<r>" registers not compared).
+func VerifMachine() {
+	variant := vp.S("variant")
+	memSize := vp.N("mem")
+	progText := vp.S("prog")
+	prog := parseProg(progText)
+
+	// symbolic (or concretely initialised) architectural state
+	ref := &refState{mem: make([]int8, memSize)}
+	concrete := parseInit(vp.S("init"))
+	for r := 1; r < 32; r++ {
+		if v, ok := concrete[r]; ok {
+			ref.reg[r] = v
+		} else {
+			ref.reg[r] = vp.I32(regNames[r])
+		}
 	}
-	app, err := risc.Parse(prog)
-	verifvp.Assert(err == nil, "parse")
+	symFrom, symTo := 0, memSize
+	if vp.S("symmem") != "" {
+		symFrom, symTo = parseRange(vp.S("symmem"))
+	}
+	for i := symFrom; i < symTo; i++ {
+		ref.mem[i] = vp.I8("m" + vp.Itoa(i))
+	}
+	var init refState
+	init.reg = ref.reg
+	init.mem = append([]int8(nil), ref.mem...)
+
+	// 1. the sequential reference (forks here on the program's own data-dependent branches)
+	ref.run(prog, vp.N("maxsteps"))
+	vp.Cover("ref-done")
+
+	// 2. the machine
+	budget := vp.N("budgetk") * (ref.executed + 2) * memoryAccess
+	m, ticks := mk(variant, memSize, vp.N("eu"), vp.N("wu"), budget)
+	ctx := m.Context()
+	for r := 1; r < 32; r++ {
+		ctx.Registers[risc.RegisterType(r)] = init.reg[r]
+	}
+	copy(ctx.Memory, init.mem)
+	app, err := risc.Parse(progText)
+	vp.Assert(err == nil, "parse")
+	if err != nil {
+		return
+	}
 	cycles, err := m.Run(app)
-	verifvp.Assert(err == nil, "run:err")
-	verifvp.Assert(cycles > 0, "cycles>0")
-	r := m.Context().Registers
-	w := int32(uint32(uint8(mem[0])) | uint32(uint8(mem[1]))<<8 | uint32(uint8(mem[2]))<<16 | uint32(uint8(mem[3]))<<24)
-	verifvp.Assert(r[risc.T3] == w, "t3")
-	verifvp.Assert(r[risc.T2] == a+b, "t2")
-	verifvp.Assert(r[risc.T4] == b, "t4")
-	want5 := int32(1)
-	if a < b {
-		want5 = 2
+	vp.Cover("run-returned")
+	if ref.fault != "" {
+		// the reference hit an ISA-defined error (division by zero): the machine must report an error value
+		vp.Assert(err != nil, "error-reported")
+		vp.Cover("end")
+		return
 	}
-	verifvp.Assert(r[risc.T5] == want5, "t5")
-	verifvp.Assert(r[risc.T6] == w+1, "t6")
-	verifvp.Assert(r[risc.T0] == a && r[risc.T1] == b, "t0t1")
-	s := a + b
-	mm := m.Context().Memory
-	verifvp.Assert(uint8(mm[128]) == uint8(s) && uint8(mm[129]) == uint8(uint32(s)>>8) && uint8(mm[130]) == uint8(uint32(s)>>16) && uint8(mm[131]) == uint8(uint32(s)>>24), "mem128")
-	verifvp.Cover("end")
+	vp.Assert(err == nil, "run-error")
+	if err != nil {
+		return
+	}
+	vp.Assert(cycles > 0, "cycles-positive")
+	vp.Assert(cycles <= budget && ticks() <= budget, "cycle-bound")
+	width := vp.N("width")
+	vp.Assert(cycles*width >= ref.executed, "cycles-vs-width")
+	checkCycles(variant, cycles, ref, prog)
+
+	// 3. architectural state
+	skip := parseSkip(vp.S("skipregs"))
+	for r := 1; r < 32; r++ {
+		if skip[r] {
+			continue
+		}
+		vp.Assert(ctx.Registers[risc.RegisterType(r)] == ref.reg[r], "reg:"+regNames[r])
+	}
+	z, hasZ := ctx.Registers[risc.Zero]
+	vp.Assert(!hasZ || z == 0, "reg:zero")
+	vp.Assert(len(ctx.Memory) == memSize, "mem-size")
+	for w := 0; w*4+3 < memSize && w*4+3 < len(ctx.Memory); w++ {
+		vp.Assert(word(ctx.Memory, 4*w) == word(ref.mem, 4*w), "mem:"+vp.Itoa(4*w))
+	}
+	vp.Cover("end")
 }
+
+func word(m []int8, i int) uint32 {
+	return uint32(uint8(m[i])) | uint32(uint8(m[i+1]))<<8 | uint32(uint8(m[i+2]))<<16 | uint32(uint8(m[i+3]))<<24
+}
+
+func assertEq(a, b int, label string) { vp.Assert(a == b, label) }
+func assertLe(a, b int, label string) { vp.Assert(a <= b, label) }
